@@ -53,6 +53,14 @@ def generate(tier, seed):
            "EVAL (let ((m (make-symbol \"q\"))) (list (eq m m) (equal m m) (symbolp m) (eq m (intern \"q\"))))",
            "EVAL (list (eq :k :k) (equal :k :k) (eq nil nil) (eq t t) (eq nil '()) (equal nil '()) (eq 'nil nil))",
            "EVAL (list (eq 'a (car '(a b))) (eq (car '(a)) (car '(a))))", "EVAL (setq s1 'foo)", "EVAL (eq s1 'foo)"]
+    sym += ["EVAL (let ((x 1)) (funcall (lambda () (list (eq 'x (make-symbol \"x\")) (equal 'x (make-symbol \"x\")) (eq 'x 'x) (eq 'x (intern \"x\")) (eq 'x 'y) (equal (list 'x) (list (make-symbol \"x\")))))))",
+            "EVAL (setq cl (let ((x 1) (y 2)) (lambda (s) (list (eq 'x s) (eq s 'x) (equal 'x s) (eq 'y s) (symbolp 'x) (eq 'x (gensym)) 'x))))",
+            "EVAL (list (funcall cl 'x) (funcall cl (make-symbol \"x\")) (funcall cl (intern \"x\")) (funcall cl 'y) (funcall cl (make-symbol \"y\")))",
+            "EVAL (setq cl2 (let ((x 1)) (lambda () (lambda (s) (list (eq 'x s) (eq 'x 'x) (eq 'x (intern \"x\")) (eq 'x (make-symbol \"x\")))))))",
+            "EVAL (list (funcall (funcall cl2) 'x) (funcall (funcall cl2) (make-symbol \"x\")))",
+            "EVAL (let ((h (make-hash-table)) (x 5)) (puthash 'x 'interned h) (funcall (lambda () (list (gethash 'x h) (gethash (make-symbol \"x\") h) (gethash (intern \"x\") h)))))",
+            "EVAL (let ((x 1)) (funcall (lambda () (assoc 'x (list (cons (make-symbol \"x\") 'uninterned) (cons 'x 'interned))))))",
+            "EVAL (let ((x 1)) (funcall (lambda () (plist-get (list (make-symbol \"x\") 'uninterned 'x 'interned) 'x))))"]
     lines += ["NEW"] + sym
     # hash tables
     keys = ["'a", "'b", "1", "1.0", '"s"', "ks", "kl", ":k", "nil", "t", "2", "1.5", "0.0", "-0.0", "kl2", "ks2"]
